@@ -73,6 +73,7 @@ type assume struct {
 	guard *Term
 	f     *Term
 	tag   string
+	block *ssa.BasicBlock
 }
 
 type Obligation struct {
@@ -92,6 +93,7 @@ type Obligation struct {
 	Seconds  float64
 	Model    string
 	Expected string // "" or "known-finding"
+	Block    *ssa.BasicBlock
 	Split    []*Term
 }
 
@@ -132,6 +134,10 @@ type FnVC struct {
 	curBlock *ssa.BasicBlock
 	curGuard *Term
 	callOrd  map[string]int
+	blockCases map[*ssa.BasicBlock][]*Term
+	defBlocks []*ssa.BasicBlock
+	paramConsts map[string]bool
+	ancestors map[*ssa.BasicBlock]map[*ssa.BasicBlock]bool
 	pkg      *types.Package
 }
 
@@ -335,6 +341,7 @@ func (v *FnVC) define(prefix string, t *Term) *Term {
 	}
 	c := v.fresh(prefix, t.Sort)
 	v.defs = append(v.defs, App("=", SBool, c, t))
+	v.defBlocks = append(v.defBlocks, v.curBlock)
 	return c
 }
 
@@ -342,7 +349,7 @@ func (v *FnVC) assume(guard, f *Term, tag string) {
 	if f.IsTrue() {
 		return
 	}
-	v.assumes = append(v.assumes, assume{guard, f, tag})
+	v.assumes = append(v.assumes, assume{guard, f, tag, v.curBlock})
 }
 
 func (v *FnVC) heapSortOf(name string) string {
@@ -371,6 +378,45 @@ func (v *FnVC) sliceHeapTerm(st *State, elem types.Type) (*Term, string) {
 		unsupported("slice of struct/array values (%s)", elem)
 	}
 	return v.heap(st, name, HeapSort(es)), name
+}
+
+// readArray returns the element array of the slice array `ref` for reading.
+// Arrays that existed at entry and are not listed in modifies are, by the
+// store-frame obligations (checked for every store, append, copy and call),
+// unchanged throughout the function, so they are read from the entry heap:
+// all states then share one term for the contents of a read-only input.
+func (v *FnVC) readArray(st *State, elem types.Type, ref *Term) *Term {
+	h, name := v.sliceHeapTerm(st, elem)
+	if v.stableRef(name, ref) {
+		h0 := v.heap(v.entry, name, v.heapSorts[name])
+		return Select(h0, ref)
+	}
+	return Select(h, ref)
+}
+
+func (v *FnVC) stableRef(heap string, ref *Term) bool {
+	if v.modAll || v.entry == nil {
+		return false
+	}
+	if ref.Op != "s-ref" || len(ref.Args) != 1 || ref.Args[0].Op != "var" {
+		if ref.Op == "var" && strings.HasPrefix(ref.Name, "strlit_") {
+			return true
+		}
+		return false
+	}
+	name := ref.Args[0].Name
+	if !v.paramConsts[name] {
+		return false
+	}
+	for _, m := range v.mods {
+		if m.heap == heap && m.ref.String() == ref.String() {
+			return false
+		}
+		if m.heap == heap && m.kind == "array" && m.ref.Op != "s-ref" {
+			return false // a modifies target we cannot compare syntactically
+		}
+	}
+	return true
 }
 
 // typeInv: the constraints every well-typed Go value satisfies.
@@ -421,7 +467,10 @@ func shortFile(f string) string {
 
 func (v *FnVC) oblige(kind, name string, guard, goal *Term, pos, text string) *Obligation {
 	o := &Obligation{Fn: v.name, Name: v.name + "/" + name, Kind: kind, Guard: guard, Goal: goal,
-		NAssume: len(v.assumes), NDef: len(v.defs), NDecl: len(v.decls), Pos: pos, Text: text, vc: v}
+		NAssume: len(v.assumes), NDef: len(v.defs), NDecl: len(v.decls), Pos: pos, Text: text, vc: v, Block: v.curBlock}
+	if v.curBlock != nil && guard == v.curGuard {
+		o.Split = v.blockCases[v.curBlock]
+	}
 	if goal.IsTrue() || guard.IsFalse() {
 		o.Result = "unsat"
 		o.Solver = "trivial"
@@ -435,7 +484,7 @@ func (v *FnVC) oblige(kind, name string, guard, goal *Term, pos, text string) *O
 // smoke: `false` must NOT be provable here (vacuity guard); never assumed.
 func (v *FnVC) smoke(name string, guard *Term, pos string) {
 	o := &Obligation{Fn: v.name, Name: v.name + "/" + name, Kind: "smoke", Guard: guard, Goal: False,
-		NAssume: len(v.assumes), NDef: len(v.defs), NDecl: len(v.decls), Pos: pos, Text: "reachable (vacuity guard: false must not be provable)", vc: v}
+		NAssume: len(v.assumes), NDef: len(v.defs), NDecl: len(v.decls), Pos: pos, Text: "reachable (vacuity guard: false must not be provable)", vc: v, Block: v.curBlock}
 	v.smokes = append(v.smokes, o)
 }
 
